@@ -44,10 +44,18 @@ fn call(entry: u64, s: &str) -> (u64, Option<String>) {
         7 => r(bw::grl_query::GRLQueryParser::parse_queries(s)),
         8 => r(ss::parse_stream_pattern(s)),
         9 => r(ss::parse_stream_join_pattern(s)),
-        10 => r(bw::aggregation::parse_aggregate_query(s)),
-        11 => (if bw::disjunction::DisjunctionParser::parse(s).is_some() { 0 } else { 1 }, None),
-        12 => { let _ = bw::nested::NestedQueryParser::parse(s); (0, None) }
-        _ => { let _ = bw::nested::NestedQueryParser::has_nested(s); (0, None) }
+        10 => match bw::aggregation::parse_aggregate_query(s) {
+            Ok(q) => { use bw::aggregation::AggregateFunction as F;
+                let (k, var) = match &q.function { F::Count => (0, String::new()), F::Sum(v) => (1, v.clone()), F::Avg(v) => (2, v.clone()), F::Min(v) => (3, v.clone()),
+                                                   F::Max(v) => (4, v.clone()), F::First => (5, String::new()), F::Last => (6, String::new()) };
+                (0, Some(Sx::l(vec![Sx::n(k), Sx::s(&var), Sx::s(&q.pattern), Sx::l(q.filter.iter().map(|f| Sx::s(f)).collect())]).show())) }
+            Err(_) => (1, None) },
+        11 => { let c = Sx::b(bw::disjunction::DisjunctionParser::contains_or(s));
+                match bw::disjunction::DisjunctionParser::parse(s) {
+                    Some(d) => (0, Some(Sx::l(vec![Sx::l(d.branches.iter().map(|g| Sx::s(&g.pattern)).collect()), c]).show())),
+                    None => (1, Some(Sx::l(vec![c]).show())) } }
+        12 => { let q = bw::nested::NestedQueryParser::parse(s); (0, Some(Sx::l(q.goals.iter().map(|g| Sx::s(&g.pattern)).collect()).show())) }
+        _ => { let b = bw::nested::NestedQueryParser::has_nested(s); (0, Some(Sx::b(b).show())) }
     }
 }
 
@@ -199,6 +207,17 @@ pub fn gen(tier: Tier, rng: &mut Rng) -> Vec<Sx> {
         let sp: Vec<String> = (0..terms).map(|t| format!("{} * {}", if t == 0 { "m" } else { "x" }, if i % 2 == 0 { "a" } else { "2" })).collect();
         v.push(mk(if i % 2 == 0 { 0 } else { 1 }, &sp.join(if rng.chance(1, 2) { " + " } else { " - " })));
     }
+    // 4c. the aggregate / disjunction / nested-query parsers (entries 10..13, predicted exactly by Model/BwSmall.v): token strings over
+    //     their own alphabet - keywords with and without their blanks, parentheses, quotes, function names in mixed case, multi-byte
+    //     and case-length-changing characters next to every keyword and parenthesis
+    const SMALL: [&str; 34] = ["(", ")", " OR ", " AND ", " WHERE ", "\"", "a", "b(?x)", "é", " ", "?x", "sum", "COUNT", "Avg", "first", "max", "mIn", "LAST",
+        "(?v)", "()", "W", "WHERE", " OR", "OR ", "AND", "\u{3000}", "\u{130}", "\u{212a}", "ſum", "x > 1", "  ", "?", ")(", "💥"];
+    let n4c = if tier == Tier::Thorough { 40000 } else { 4000 };
+    for _ in 0..n4c {
+        let k = rng.range(1, 12);
+        let s: String = (0..k).map(|_| *rng.pick(&SMALL)).collect::<Vec<&str>>().concat();
+        for e in 10..=13 { v.push(mk(e, &s)); }
+    }
     // 5. deep prefix chains and nesting up to 4 KiB
     for e in 1..nent { for (p, q) in [("!", ""), ("(", ""), ("(", ")"), ("[", "]"), ("{", "}"), ("NOT ", ""), ("-", ""), ("!(", ")"), ("exists(", ")")] {
         for n in [33usize, 500, 4000 / (p.len() + q.len()).max(1)] { let s = format!("{}X.a == 1{}", p.repeat(n), q.repeat(n)); v.push(mk(e, &s[..s.len().min(4096)])); } } }
@@ -212,7 +231,7 @@ pub fn run(case: &Sx) -> (Sx, String) {
     std::panic::set_hook(Box::new(|info| { if let Some(l) = info.location() { *LAST_LOC.lock().unwrap() = format!("{}:{}", l.file(), l.line()); } }));
     let r = std::panic::catch_unwind(|| call(entry, &s));
     match r {
-        Ok((class, leaf)) => (Sx::l(vec![Sx::n(class), match leaf { Some(l) if entry == 0 => Sx::l(vec![Sx::s(&l)]), Some(l) if entry == 5 || entry == 4 => Sx::l(vec![Sx::parse(&l)]), _ => Sx::l(vec![]) }]),
+        Ok((class, leaf)) => (Sx::l(vec![Sx::n(class), match leaf { Some(l) if entry == 0 => Sx::l(vec![Sx::s(&l)]), Some(l) if entry == 5 || entry == 4 || entry >= 10 => Sx::l(vec![Sx::parse(&l)]), _ => Sx::l(vec![]) }]),
                               format!("{} {}", ENTRIES[entry as usize], if class == 0 { "ok" } else { "err" })),
         Err(e) => { let msg = if let Some(s) = e.downcast_ref::<String>() { s.clone() } else if let Some(s) = e.downcast_ref::<&str>() { s.to_string() } else { "?".into() };
                     (Sx::l(vec![Sx::n(if LAST_LOC.lock().unwrap().contains("/rexile-") { 3 } else { 2 }), Sx::l(vec![])]), format!("{} PANIC at {} {}", ENTRIES[entry as usize], LAST_LOC.lock().unwrap(), msg.chars().take(60).collect::<String>().replace('\n', " "))) }
